@@ -16,7 +16,18 @@ class Obj:
         self.items = ["i%d" % i for i in range(n)]
 
 
-N_TEMPLATES = 9
+class Impostor:
+    """An object that presents another class through __class__ (mocks with a spec, transparent proxies do this)."""
+
+    def __init__(self, n):
+        self.n = n
+
+    @property
+    def __class__(self):
+        return float
+
+
+N_TEMPLATES = 10
 
 
 def template(t, n):
@@ -48,6 +59,8 @@ def template(t, n):
         return {"big": [[i, i + 100, i + 200] for i in range(n)], "x": 1, "y": "yy"}
     if t == 8:
         return {"m": [{"k": ["s" * n, n]}, ("t",)], "e": ValueError("bad", n)}
+    if t == 9:
+        return {"imp": Impostor(n), "big": 1 << 20000, "z": 1}
     raise ValueError(t)
 
 
